@@ -336,6 +336,13 @@ static std::string compare(const V &v, const MV &m0, const Targets &target, cons
         if (v.GetKey(0) != nullptr) {
             return path + ": GetKey on an array is not null";
         }
+        // a key that is not the decimal text of an index below Size() names no element: empty, index + 2^32 (wraps a 32-bit
+        // index), 2^64 + index, a digit followed by other units, signs and blanks
+        for (const char *k : {"", "4294967296", "4294967297", "18446744073709551616", "0x", "0 ", " 0", "+0", "-0", "0.0", "1e0", "/9", "0:"}) {
+            if (v.GetValue(k, SizeT(strlen(k))) != nullptr) {
+                return path + ": GetValue(\"" + k + "\") of an array with " + std::to_string(m.items.size()) + " elements is not null";
+            }
+        }
     } else if (m.k == MV::O) {
         const auto *obj = v.GetObject();
         if (obj == nullptr) {
